@@ -358,6 +358,8 @@ def detsim_stats(res, case, r):
     det = r.det
     kind = (case.get("sched") or {}).get("kind", "S0")
     cnt["strategy:" + kind] = cnt.get("strategy:" + kind, 0) + 1
+    if (case.get("sched") or {}).get("opcodes"):
+        cnt["granularity:bytecode"] = cnt.get("granularity:bytecode", 0) + 1
     for k, v in r.faults.items():
         cnt["fault:" + k] = cnt.get("fault:" + k, 0) + v
     for name, v in (("preempt", det.n_switch), ("timer_fire", det.n_timer_fire),
